@@ -635,6 +635,16 @@ func (fc *funcContext) RegTop() int {
 /* FuncContext }}} */
 
 func compileChunk(context *funcContext, chunk []ast.Stmt, untilFollows bool) { // {{{
+	// nested blocks count as syntax levels too
+	context.exprDepth++
+	defer leaveExpr(context)
+	if context.exprDepth > maxExprDepth {
+		line := 0
+		if len(chunk) > 0 {
+			line = sline(chunk[0])
+		}
+		raiseCompileError(context, line, "chunk has too many syntax levels")
+	}
 	for i, stmt := range chunk {
 		lastStmt := true
 		for j := i + 1; j < len(chunk); j++ {
